@@ -15,8 +15,8 @@ fn show_iv(iv: (u32, u32)) -> String {
 
 /// set (mask) denoted by a crate CharSet, observed through `contains` on every probe character;
 /// None if `contains` is not uniform on a segment
-fn observe(u: &Universe, s: &CharSet) -> Result<u64, String> {
-    let mut m = 0u64;
+fn observe(u: &Universe, s: &CharSet) -> Result<u128, String> {
+    let mut m = 0u128;
     for (i, &(x, y)) in u.segs.iter().enumerate() {
         let mid = x + (y - x) / 2;
         let a = s.contains(x);
@@ -140,6 +140,12 @@ fn check_pair(u: &Universe, a: (u32, u32), b: (u32, u32), o: &mut Outcome) {
     } else {
         None
     };
+    // the comparison operators must tell the same story as partial_cmp
+    let (lt, le, gt, ge) = (sa < sb, sa <= sb, sa > sb, sa >= sb);
+    let exp_ops = (exp == Some(Ordering::Less), matches!(exp, Some(Ordering::Less) | Some(Ordering::Equal)), exp == Some(Ordering::Greater), matches!(exp, Some(Ordering::Greater) | Some(Ordering::Equal)));
+    if (lt, le, gt, ge) != exp_ops {
+        o.fail("C20/comparison-operators", format!("{} vs {}: (<, <=, >, >=) = {:?}, expected {:?}", show_iv(a), show_iv(b), (lt, le, gt, ge), exp_ops));
+    }
     if sa.partial_cmp(&sb) != exp {
         o.fail("C20/partial_cmp", format!("{}.partial_cmp({}) = {:?}, expected {:?}", show_iv(a), show_iv(b), sa.partial_cmp(&sb), exp));
     }
